@@ -19,6 +19,24 @@ Definition crash_propagates_full : Prop := forall T attached out, wf_topo T = tr
   reach T attached out s -> step T attached out s (ECrash n) = Some s1 ->
   run T attached out s1 es = Some s2 -> quiescent T attached s2 = true -> all_down T s2 = true.
 
+Lemma run_app_inv : forall T a o x y s s2, run T a o s (x ++ y) = Some s2 ->
+  exists s1, run T a o s x = Some s1 /\ run T a o s1 y = Some s2.
+Proof. induction x as [|e x IH]; simpl; intros y s s2 H. exists s. auto.
+  destruct (step T a o s e) as [s'|]; [|discriminate]. apply IH; auto. Qed.
+
+Lemma run_one : forall T a o s e s1, run T a o s [e] = Some s1 -> step T a o s e = Some s1.
+Proof. intros T a o s e s1. simpl. destruct (step T a o s e); auto. Qed.
+
+Lemma obs_elim : forall (A : Type) (f : state -> A) r v, option_map f r = Some v -> exists s, r = Some s /\ f s = v.
+Proof. intros A f r v H. destruct r as [s|]; simpl in H; [|discriminate H]. inversion H. exists s. auto. Qed.
+
+(* states contain functions: only finite observations are computed, never a whole state *)
+Lemma nested_obs :
+  option_map (fun s => (quiescent nested_T false s, all_down nested_T s, alive s 2, alive s 3, cend s 2, outcomes s 4))
+    (run nested_T false S (init nested_T 10) (nested_pre ++ [ECrash 1] ++ nested_post))
+  = Some (true, false, true, true, false, [ORaised; OSubmitted 7]).
+Proof. vm_compute. reflexivity. Qed.
+
 Lemma nested_run : exists s s1 s2,
   run nested_T false S (init nested_T 10) nested_pre = Some s /\
   step nested_T false S s (ECrash 1) = Some s1 /\
@@ -26,16 +44,10 @@ Lemma nested_run : exists s s1 s2,
   quiescent nested_T false s2 = true /\ all_down nested_T s2 = false /\
   alive s2 2 = true /\ alive s2 3 = true /\ cend s2 2 = false /\
   outcomes s2 4 = [ORaised; OSubmitted 7].
-Proof.
-  destruct (run nested_T false S (init nested_T 10) nested_pre) as [s|] eqn:E1; [|vm_compute in E1; discriminate].
-  destruct (step nested_T false S s (ECrash 1)) as [s1|] eqn:E2;
-    [|generalize E2; revert E1; vm_compute; intros E1; inversion E1; subst; vm_compute; discriminate].
-  destruct (run nested_T false S s1 nested_post) as [s2|] eqn:E3;
-    [|generalize E3; generalize E2; revert E1; vm_compute; intros E1; inversion E1; subst; vm_compute;
-      intros E2'; inversion E2'; subst; vm_compute; discriminate].
-  exists s, s1, s2. repeat split; auto;
-  revert E3; revert E2; revert E1; vm_compute; intros E1; inversion E1; subst; vm_compute;
-  intros E2; inversion E2; subst; vm_compute; intros E3; inversion E3; subst; reflexivity.
+Proof. destruct (obs_elim _ _ _ _ nested_obs) as [s2 [E O]]. cbv beta in O.
+  apply run_app_inv in E. destruct E as [s [E1 E]]. apply run_app_inv in E. destruct E as [s1 [E2 E3]].
+  apply run_one in E2. injection O as O1 O2 O3 O4 O5 O6.
+  exists s, s1, s2. repeat split; assumption.
 Qed.
 
 Lemma reach_of_run : forall T a o b es s, forallb (good_event T) es = true ->
@@ -61,32 +73,44 @@ Definition ex_ok : list event :=
   [ECall 6 (RSubmit 7) 0; ERecv true 6 0; EEmit false 1 8; ERecv false 1 0; EEmit false 2 8; ERecv false 2 0;
    ECall 6 (RResult 7) 0; ERecv true 6 0; EFinish 2 0; ERecv true 2 0; ERecv true 1 0; ERecv false 6 1].
 
+Lemma ex_obs :
+  option_map (fun s => (quiescent ex_T false s, all_down ex_T s, outcomes s 6, outcomes s 7))
+    (run ex_T false S (init ex_T 10) (ex_pre ++ [ECrash 2] ++ ex_post))
+  = Some (true, true, [ORaised; OSubmitted 7], [ORaised; OSubmitted 9]).
+Proof. vm_compute. reflexivity. Qed.
+Lemma ex_obs1 :
+  option_map (fun s => (blocked s 6, variant ex_T s))
+    (run ex_T false S (init ex_T 10) (ex_pre ++ [ECrash 2]))
+  = Some (Some (RResult 7), 143).
+Proof. vm_compute. reflexivity. Qed.
+
 Lemma ex_crash :
   wf_topo ex_T = true /\ good_crash ex_T 2 = true /\
   exists s s1 s2, run ex_T false S (init ex_T 10) ex_pre = Some s /\ reach ex_T false S s /\
     step ex_T false S s (ECrash 2) = Some s1 /\ run ex_T false S s1 ex_post = Some s2 /\
     forallb (good_event ex_T) ex_post = true /\
     quiescent ex_T false s2 = true /\ all_down ex_T s2 = true /\
-    blocked s 6 = Some (RResult 7) /\ outcomes s2 6 = [ORaised; OSubmitted 7] /\
+    blocked s1 6 = Some (RResult 7) /\ outcomes s2 6 = [ORaised; OSubmitted 7] /\
     outcomes s2 7 = [ORaised; OSubmitted 9] /\ count_recv ex_post = 6 /\ variant ex_T s1 = 143.
 Proof. split. reflexivity. split. reflexivity.
-  destruct (run ex_T false S (init ex_T 10) ex_pre) as [s|] eqn:E1; [|vm_compute in E1; discriminate].
-  assert (R : reach ex_T false S s) by (eapply reach_of_run; eauto; reflexivity).
-  destruct (step ex_T false S s (ECrash 2)) as [s1|] eqn:E2;
-    [|generalize E2; revert E1; vm_compute; intros E1; inversion E1; subst; vm_compute; discriminate].
-  destruct (run ex_T false S s1 ex_post) as [s2|] eqn:E3;
-    [|generalize E3; generalize E2; revert E1; vm_compute; intros E1; inversion E1; subst; vm_compute;
-      intros E2'; inversion E2'; subst; vm_compute; discriminate].
-  exists s, s1, s2. repeat split; auto; clear R;
-  revert E3; revert E2; revert E1; vm_compute; intros E1; inversion E1; subst; vm_compute;
-  intros E2; inversion E2; subst; vm_compute; intros E3; inversion E3; subst; reflexivity.
+  destruct (obs_elim _ _ _ _ ex_obs) as [s2 [E O]]. cbv beta in O.
+  destruct (obs_elim _ _ _ _ ex_obs1) as [s1' [F O']]. cbv beta in O'.
+  apply run_app_inv in E. destruct E as [s [E1 E]]. apply run_app_inv in E. destruct E as [s1 [E2 E3]].
+  apply run_app_inv in F. destruct F as [s' [F1 F2]]. rewrite E1 in F1. inversion F1; subst s'.
+  rewrite E2 in F2. inversion F2; subst s1'. apply run_one in E2.
+  injection O as O1 O2 O3 O4. injection O' as P1 P2.
+  exists s, s1, s2. split; [assumption|]. split; [eapply reach_of_run; [|eassumption]; reflexivity|].
+  repeat split; try assumption; reflexivity.
 Qed.
+
+Lemma ex_result_obs :
+  option_map (fun s => (outcomes s 6, owns s, fin s)) (run ex_T false S (init ex_T 10) ex_ok)
+  = Some ([OResult 7 1; OSubmitted 7], [(6, 7, 0)], [0]).
+Proof. vm_compute. reflexivity. Qed.
 
 Lemma ex_result :
   exists s, reach ex_T false S s /\ outcomes s 6 = [OResult 7 1; OSubmitted 7] /\
             owns s = [(6, 7, 0)] /\ fin s = [0].
-Proof.
-  destruct (run ex_T false S (init ex_T 10) ex_ok) as [s|] eqn:E1; [|vm_compute in E1; discriminate].
-  exists s. split. eapply reach_of_run; eauto; reflexivity.
-  repeat split; revert E1; vm_compute; intros E1; inversion E1; subst; reflexivity.
+Proof. destruct (obs_elim _ _ _ _ ex_result_obs) as [s [E O]]. cbv beta in O. injection O as O1 O2 O3.
+  exists s. split. eapply reach_of_run; [|eassumption]; reflexivity. repeat split; assumption.
 Qed.
